@@ -221,7 +221,7 @@ def load(patches=None):
 
     pkg = 'edb.server.compiler_pool'
     patched = {}
-    for rel in ('pool', 'queue', 'state', 'amsg', 'worker_proc', 'worker', 'multitenant_worker'):
+    for rel in ('pool', 'queue', 'state', 'amsg', 'worker_proc', 'worker', 'multitenant_worker', 'server'):
         relpath = f'edb/server/compiler_pool/{rel}.py'
         src = island.read_source(relpath)
         newsrc = island.apply_patches(src, patches, relpath)
@@ -234,7 +234,7 @@ def load(patches=None):
     sys.modules[pkg] = cp
 
     mods = {}
-    for rel in ('state', 'amsg', 'queue', 'worker_proc', 'pool'):
+    for rel in ('state', 'amsg', 'queue', 'worker_proc', 'pool', 'server'):
         name = f'{pkg}.{rel}'
         m = types.ModuleType(name)
         m.__file__ = os.path.join(REPO, f'edb/server/compiler_pool/{rel}.py')
@@ -253,6 +253,8 @@ def load(patches=None):
     mods['pool'].log_metrics = null
     tp = island.TimeProxy()
     mods['pool'].time = tp
+    mods['server'].time = tp
+    mods['server'].logger = null
     _state.update(mods=mods, wcode=wcode, time=tp, fakes=fakes, patches_key=_key(patches),
                   real_modules=sorted(n for n, m in sys.modules.items()
                                       if n.startswith('edb.') and not getattr(m, '__verif_fake__', False)))
